@@ -173,6 +173,16 @@ func init() {
 			res[i] = map[string]interface{}{"loc": name, "outs": outs[i], "store": e.storeDump(name)}
 		}
 		out := map[string]interface{}{"clients": res, "storages": creations}
+		// the jobs the engine's (shared) cron holds at the end: ids of the scheduled rules of all locations
+		if e.cr != nil {
+			e.cr.Lock()
+			reg := make([]interface{}, 0, len(e.cr.Timeline))
+			for _, j := range e.cr.Timeline {
+				reg = append(reg, j.Id)
+			}
+			e.cr.Unlock()
+			out["registry"] = reg
+		}
 		if hs != nil {
 			// every request has been answered: nothing is pending any more
 			time.Sleep(20 * time.Millisecond)
